@@ -61,3 +61,170 @@ def replay_c12(site, root, holder, dopts, behaviours, procs=16):
             agg["events"] += out["events"]
             agg["mism"].extend(out["mism"])
     return agg
+
+
+# ------------------------------------------------------------------ sys/Mashumaro.tla behaviours (C13 C14 C15)
+class SysTables:
+    def __init__(self, printed):
+        self.classes = {}
+        self.values = {}
+        self.inputs = {}
+        self.dialects = {}
+        self.calls = {}
+        self.twins = {}
+        self.codeccalls = {}
+        self.behaviours = []
+        for p in printed:
+            if p[0] == "class":
+                self.classes[p[1]] = p[2]
+                self.values[p[1]] = p[3]
+                self.inputs[p[1]] = p[4]
+            elif p[0] == "dialect":
+                self.dialects[p[1]] = p[2]
+            elif p[0] == "call":
+                self.calls[(p[1], p[2], p[3])] = norm_err(p[4]) if p[2] == "from" else p[4]
+                self.twins[(p[1], p[2], p[3])] = p[5]
+            elif p[0] == "codeccall":
+                self.codeccalls[(p[1], p[2], p[3])] = norm_err(p[4]) if p[2] == "from" else p[4]
+            elif p[0] == "beh":
+                self.behaviours.append(p[1])
+
+
+class World:
+    """one fresh universe of classes / dialects / codecs in which a behaviour is executed"""
+
+    def __init__(self, tables: SysTables):
+        from harness.terms import Registry
+        self.t = tables
+        self.reg = Registry()
+        self.dialect_cls = {}
+        self.codecs = {}
+
+    def dialect(self, name):
+        if name == "none":
+            return None
+        if name not in self.dialect_cls:
+            from harness.classes import build_dialect
+            self.dialect_cls[name] = build_dialect(self.t.dialects[name], self.reg)
+        return self.dialect_cls[name]
+
+    def define(self, n):
+        from harness.terms import concretize_type
+        return concretize_type(self.t.classes[n], self.reg)
+
+    def call(self, n, direction, d):
+        from harness.real import abstract_exception
+        from harness.terms import abstract_value, concretize_value
+        cls = self.reg.by_name[n]
+        kw = {} if d == "none" else {"dialect": self.dialect(d)}
+        try:
+            if direction == "to":
+                x = concretize_value(self.t.values[n], self.reg)
+                return abstract_value(x.to_dict(**kw), self.reg)
+            data = concretize_value(self.t.inputs[n], self.reg)
+            return ["ok", abstract_value(cls.from_dict(data, **kw), self.reg)]
+        except RecursionError:
+            return ["err", ["other", "RecursionError", ""]]
+        except Exception as e:  # noqa: BLE001
+            return norm_err(abstract_exception(e, self.reg))
+
+    def create_codec(self, n, direction, d):
+        from harness.real import BasicDecoder, BasicEncoder
+        cls = self.reg.by_name[n]
+        before = sorted(k for k in vars(cls) if "mashumaro" in k or "dialect" in k)
+        self.codecs[(n, direction, d)] = (BasicEncoder if direction == "to" else BasicDecoder)(cls, default_dialect=self.dialect(d))
+        after = sorted(k for k in vars(cls) if "mashumaro" in k or "dialect" in k)
+        return before == after
+
+    def codec_call(self, n, direction, d):
+        from harness.real import abstract_exception
+        from harness.terms import abstract_value, concretize_value
+        c = self.codecs[(n, direction, d)]
+        try:
+            if direction == "to":
+                return abstract_value(c.encode(concretize_value(self.t.values[n], self.reg)), self.reg)
+            return ["ok", abstract_value(c.decode(concretize_value(self.t.inputs[n], self.reg)), self.reg)]
+        except RecursionError:
+            return ["err", ["other", "RecursionError", ""]]
+        except Exception as e:  # noqa: BLE001
+            return norm_err(abstract_exception(e, self.reg))
+
+    def close(self):
+        self.reg.close()
+
+
+_TABLES = None
+
+
+def _run_sys(beh):
+    from harness.terms import canon, wire_match
+    t = _TABLES
+    w = World(t)
+    out = {"events": 0, "mism": [], "drift": []}
+    try:
+        for idx, ev in enumerate(beh):
+            out["events"] += 1
+            kind = ev[0]
+            if kind == "Define":
+                w.define(ev[1])
+                continue
+            n, direction, d = ev[1], ev[2], ev[3]
+            if kind == "CreateCodec":
+                if not w.create_codec(n, direction, d):
+                    out["drift"].append(f"CreateCodec({n},{direction},{d}) changed the class namespace")
+                continue
+            if kind == "Call":
+                exp = t.calls[(n, direction, d)]
+                act = w.call(n, direction, d)
+            else:
+                exp = t.codeccalls[(n, direction, d)]
+                act = w.codec_call(n, direction, d)
+            ok = wire_match(canon(exp), act) if direction == "to" else terms_equal(exp, act)
+            if not ok:
+                out["mism"].append({"clause": "history-dependent" if idx > 1 else "outcome", "step": idx, "history": beh[: idx + 1],
+                                    "event": ev, "expected": exp, "actual": act})
+                break
+    finally:
+        w.close()
+    return out
+
+
+def _run_twin(key):
+    """C13: a freshly built twin (default dialect = D) must give the same result as the call with dialect=D"""
+    from harness.real import abstract_exception
+    from harness.terms import Registry, abstract_value, canon, concretize_type, concretize_value, wire_match
+    t = _TABLES
+    n, direction, d = key
+    reg = Registry()
+    try:
+        cls = concretize_type(t.twins[key], reg)
+        try:
+            if direction == "to":
+                act = abstract_value(concretize_value(t.values[n], reg).to_dict(), reg)
+            else:
+                act = ["ok", abstract_value(cls.from_dict(concretize_value(t.inputs[n], reg)), reg)]
+        except Exception as e:  # noqa: BLE001
+            act = norm_err(abstract_exception(e, reg))
+        exp = t.calls[key]
+        ok = wire_match(canon(exp), act) if direction == "to" else terms_equal(exp, act)
+        return None if ok else {"clause": "twin", "event": ["Twin", n, direction, d], "expected": exp, "actual": act, "history": []}
+    finally:
+        reg.close()
+
+
+def replay_sys(tables: SysTables, procs=16, twins=True):
+    global _TABLES
+    _TABLES = tables
+    agg = {"events": 0, "mism": [], "drift": set(), "behaviours": len(tables.behaviours)}
+    ctx = mp.get_context("fork")
+    with ctx.Pool(procs) as pool:
+        for out in pool.imap_unordered(_run_sys, tables.behaviours, chunksize=32):
+            agg["events"] += out["events"]
+            agg["mism"].extend(out["mism"])
+            agg["drift"].update(out["drift"])
+        if twins:
+            for m in pool.imap_unordered(_run_twin, list(tables.twins), chunksize=1):
+                agg["events"] += 1
+                if m:
+                    agg["mism"].append(m)
+    return agg
